@@ -67,8 +67,15 @@ BOUNDS = {
              "2x3, 3x2, 1x3, 3x1). Small-magnitude regime: the 2D / 1D round trips again with values 2^-30 (n + 1/3), n a symbolic integer in "
              "[-1000, 1000] (shapes 2x3, 3x2, 1x3, 3x1, N=3). Imaging: one pre-existing psf / noise-map target among fresh paths with overwrite=False "
              "must fail and stay untouched. Imaging.output_to_fits -> from_fits: 3x3 data / noise map (> 0), 3x3 PSF with unit sum, all symbolic.",
-    "thorough": "as quick, but ALL masks forked for every 2D shape with H*W <= 12 and H,W <= 8 (incl. 3x4, 4x3, 2x5, 5x2, 2x6, 6x2, 1x5..1x8, 5x1..8x1; for "
-                "more than 9 pixels the Mask2D.from_fits options are {None, (H+2,W+2)} x invert), 1D lengths 1..8, Imaging also 3x4 data; derived arrays with all masks for H*W <= 9 and 1D lengths 1..8; file-system histories with three content-shape pairs per array writer and two per mask writer",
+    "thorough": "everything of quick, plus (same obligations): case_2d with ALL masks forked for every 2D shape with H*W <= 12 and H,W <= 8 (3x4, 4x3, "
+                "2x5, 5x2, 2x6, 6x2, 1x5..1x8, 5x1..8x1; above 9 pixels the Mask2D.from_fits options are {None, (H+2,W+2)} x invert) and with the "
+                "5-mask family for 4x4, 3x5, 5x3, 4x5, 5x4, 5x5, 2x7, 7x2, 1x9, 9x1, 3x6, 6x3, 6x6, 2x8, 8x2; derived arrays (both storage modes, "
+                "id / + c / * c / c - x, both routes) with ALL masks for H*W <= 9 and for 2x5, 5x2, 2x6, 6x2, 3x4, 4x3, the 4-mask family for the larger "
+                "shapes just listed; 1D (case_1d and derived) lengths 1..10 with all masks; small-magnitude regime for 1x1, 2x2, 3x3, 3x4, 4x3, 4x4, "
+                "1x5, 5x1 x {unmasked, checkerboard, corner} and 1D lengths 1, 2, 3, 5, 8; multi-extension files also for 1x1, 2x2, 3x3, 3x4, 4x3, 4x4, "
+                "1x5, 5x1; Imaging round trips also 3x4, 4x3, 4x4, 3x5, 5x5, 6x6; file-system histories (every path kind, both flips): array "
+                "writers with content-shape pairs 2x3->3x2, 1x3->2x2, 3x1->1x1, 3x3->1x1, 1x1->3x4, 4x1->1x4, 3x4->4x3; mask writers with old/new mask "
+                "bits forked for 1x3->2x2, 2x2->1x3, 2x2->2x2, 1x4->2x1; Imaging 3x3->3x4, 4x4->3x3, 3x4->5x5",
 }
 OUTSIDE = [
     "astropy's serialiser itself (byte layout, BITPIX/dtype conversion, BSCALE/BZERO scaling, header-card float formatting to 16 digits): only exercised "
@@ -98,7 +105,7 @@ ASSUMPTIONS = [
     "replays compare scales relative to their magnitude (1e-12)",
 ]
 EXPLORER_OPTS = {"max_paths": 140000, "timeout_ms": 20000}
-BUDGET_S = {"quick": 600, "thorough": 2300}
+BUDGET_S = {"quick": 600, "thorough": 3000}
 
 SCALE_REL_TOL = 1e-12      # replay: header scales relative to their magnitude (astropy cards carry 16 significant digits)
 _STUBBED = [False]
